@@ -29,7 +29,7 @@ def main():
         mod = importlib.import_module('qv.props.' + pid.lower())
         ctx = core.Ctx(pid, a.tier, seed, level=getattr(mod, 'LEVEL', 'proof'))
         if a.replay:
-            return mod.replay(ctx, a.replay)
+            return core.do_replay(mod, pid, a.replay, getattr(mod, 'LEVEL', 'proof'))
         ctx.nolean = a.no_lean
         if not a.no_lean:
             ctx.lean_check(with_leanchecker=(a.tier == 'thorough'))
